@@ -6,6 +6,7 @@ import ScVerif.C07.Rim3
 import ScVerif.C07.Rim4
 import ScVerif.C07.Rim5
 import ScVerif.C07.Rim6
+import ScVerif.C07.Rim7
 /-!
 Driver handler for C07 (stateful).  One op per line; the answer lists every message that crossed
 the boundary in this op by its contents; `audit` prints the current contents of every published
@@ -162,7 +163,10 @@ def handleCore (s : CoreState) (toks : List String) : CoreState × String :=
 def handle (s : DrvState) (toks : List String) : DrvState × String :=
   match toks with
   | "rim" :: "active" :: rest => (s, Rim5.handleActive rest)
+  | "rim" :: "setactive" :: rest => (s, Rim5.handleSetActive rest)
   | "rim" :: "count" :: rest => (s, Rim6.handleCount rest)
+  | "rim" :: "light" :: rest => (s, Rim7.handleLight rest)
+  | "rim" :: "light-legacy" :: rest => (s, Rim7.handleLightWith true rest)
   | "rim" :: "create" :: rest => (s, Rim4.handleCreate rest)
   | "rim" :: "hail" :: rest => (s, Rim4.handleHail rest)
   | "rim" :: "incl" :: rest => (s, Rim4.handleIncl rest)
